@@ -47,7 +47,7 @@ Record actx := mkA {
 Record st := mkS {
   store : list slock;      (* locks of S held by the store *)
   flags : list key;        (* buffer keys flagged 'locked' *)
-  written : list key;      (* buffer keys holding a value *)
+  written : list (key * bool);  (* buffer writes, newest first: (key, value is empty = Delete) *)
   presume : list key;      (* buffer keys flagged PresumeKeyNotExists *)
   cnt : Z;                 (* lockedCnt *)
   agg : option actx;
@@ -197,12 +197,13 @@ Fixpoint filter_agg (a : actx) (rv ce : bool) (f : ts) (expired canskip : bool) 
     | Some e =>
       if f <? e_lwc e then (a, [], true)
       else
-        let a1 := a_prev (delk k (prev a)) a in
         match (if canskip then (if expired then None else try_skip e rv ce) else None) with
         | Some e' =>
+          let a1 := a_prev (delk k (prev a)) a in
           filter_agg (a_cur ((k, e') :: delk k (cur a1)) a1) rv ce f expired canskip r
         | None =>
-          let '(a2, ks', err) := filter_agg a1 rv ce f expired canskip r in (a2, k :: ks', err)
+          (* the key is requested again; it stays in the previous-attempt map until that succeeds *)
+          let '(a2, ks', err) := filter_agg a rv ce f expired canskip r in (a2, k :: ks', err)
         end
     | None =>
       let '(a2, ks', err) := filter_agg a rv ce f expired canskip r in (a2, k :: ks', err)
@@ -253,7 +254,8 @@ Definition finish_lock (rk : list key) (rv ce loie : bool) (absent : list key) (
   let kp := kept loie absent rk in
   let s1 := match agg s with
             | Some a =>
-              set_agg (Some (a_cur (fold_left (fun c k => (k, mkE rv ce lwc) :: delk k c) kp (cur a)) a)) s
+              set_agg (Some (a_prev (fold_left (fun c k => delk k c) kp (prev a))
+                                    (a_cur (fold_left (fun c k => (k, mkE rv ce lwc) :: delk k c) kp (cur a)) a))) s
             | None => set_flags (flags s ++ kp) s
             end in
   set_cnt (cnt s1 + len kp)%Z s1.
@@ -359,13 +361,27 @@ Record commit_out := mkCO {
   co_mode : cmode;              (* protocol in effect after fall-backs *)
   co_prewritten : list key;     (* keys the store prewrote before the failure *)
   co_sync : list key;           (* keys committed before Commit returned *)
+  co_unnecessary : list key;    (* keys whose buffer entry the transaction's KVFilter declares unnecessary *)
   co_res : cres }.
 
-Definition mutations (s : st) : list key := dedup_sort (flags s ++ written s).
+(* initKeysAndMutations: a flagged key without value is an Op_Lock mutation; a buffered value
+   (empty = Delete, or not) that the filter declares unnecessary is kept, as Op_Lock, only if the
+   key is flagged (before the fix of finding "kvfilter_drops_locked_delete" the Delete case was
+   skipped even for a flagged key) *)
+Definition keep_mut (unn : list key) (s : st) (k : key) : bool :=
+  match findk k (written s) with
+  | None => true
+  | Some _ => negb (memk k unn) || memk k (flags s)
+  end.
+Definition mutations (unn : list key) (s : st) : list key :=
+  dedup_sort (filter (keep_mut unn s) (flags s ++ keys_of (written s))).
+(* the committer's primary key is among the mutations (otherwise no batch is the primary batch) *)
+Definition primary_in (muts : list key) (s : st) : bool :=
+  match primary s with Some p => memk p muts | None => true end.
 
 Definition commit_body (o : commit_out) (s : st) : st :=
   let s0 := set_valid false s in
-  let muts := mutations s in
+  let muts := mutations (co_unnecessary o) s in
   match muts with
   | [] => s0
   | _ =>
@@ -386,7 +402,11 @@ Definition commit_body (o : commit_out) (s : st) : st :=
       | COk =>
         match co_mode o with
         | MAsync => add_task (TCommitSec muts) s2
-        | _ => add_task (TCommitSec muts) (set_store (run_task (TCommitSec (co_sync o)) (store s2)) s2)
+        | _ =>
+          let s3 := add_task (TCommitSec muts) (set_store (run_task (TCommitSec (co_sync o)) (store s2)) s2) in
+          (* no primary batch: every commit batch runs in the background, c.mu.committed stays false,
+             execute's deferred block also spawns the clean-up (the two race) *)
+          if primary_in muts s then s3 else add_task (TCleanup muts) s3
         end
       | _ => add_task (TCleanup muts) s2
       end
@@ -400,13 +420,15 @@ Definition commit (o : commit_out) (s : st) : st :=
 
 (* ---- events ---- *)
 Inductive ev :=
-| ESet (k : key)                      (* Set / Delete *)
+| ESet (k : key)                      (* Set (non-empty value) *)
+| EDel (k : key)                      (* Delete (empty value) *)
 | EInsert (k : key)                   (* SetWithFlags(.., SetPresumeKeyNotExists) *)
 | ELock (ks : list key) (rv ce loie : bool) (f : ts) (o : lock_out)
 | EAggStart | EAggRetry | EAggCancel | EAggDone
 | ECommit (o : commit_out)
 | ERollback
-| ERun (n : nat).                     (* the n-th pending background task runs to completion *)
+| ERun (n : nat)                      (* the n-th pending background task runs to completion *)
+| ERunSome (n : nat) (ks : list key). (* ... finishes the batches holding [ks] only (region error / re-batching: the rest is retried later) *)
 
 Definition run_nth (n : nat) (s : st) : st :=
   match nth_error (tasks s) n with
@@ -414,10 +436,25 @@ Definition run_nth (n : nat) (s : st) : st :=
   | None => s
   end.
 
+(* the part of a task that concerns the keys [ks] *)
+Definition restrict_task (ks : list key) (t : task) : task :=
+  let r := filter (fun k => memk k ks) in
+  match t with
+  | TPessRb l f => TPessRb (r l) f
+  | TCleanup l => TCleanup (r l)
+  | TCommitSec l => TCommitSec (r l)
+  end.
+Definition run_some (n : nat) (ks : list key) (s : st) : st :=
+  match nth_error (tasks s) n with
+  | Some t => set_store (run_task (restrict_task ks t) (store s)) s
+  | None => s
+  end.
+
 Definition step (s : st) (e : ev) : st :=
   match e with
-  | ESet k => set_written (k :: written s) s
-  | EInsert k => set_presume (k :: presume s) (set_written (k :: written s) s)
+  | ESet k => set_written ((k, false) :: written s) s
+  | EDel k => set_written ((k, true) :: written s) s
+  | EInsert k => set_presume (k :: presume s) (set_written ((k, false) :: written s) s)
   | ELock ks rv ce loie f o => lock_keys ks rv ce loie f o s
   | EAggStart => agg_start s
   | EAggRetry => agg_retry s
@@ -426,6 +463,7 @@ Definition step (s : st) (e : ev) : st :=
   | ECommit o => commit o s
   | ERollback => rollback s
   | ERun n => run_nth n s
+  | ERunSome n ks => run_some n ks s
   end.
 
 Definition run (s : st) (evs : list ev) : st := fold_left step evs s.
